@@ -6,6 +6,7 @@ import logging
 import copy
 import json
 
+import isodate
 from tableschema_sql import Storage
 from sqlalchemy import create_engine
 
@@ -43,6 +44,20 @@ OBJECT_FIXERS = {
     'sqlite': [strize, jsonize],
     'postgresql': [strize]
 }
+
+
+def textize(obj):
+    if isinstance(obj, datetime.timedelta):
+        return isodate.duration_isoformat(obj)
+    elif isinstance(obj, tuple) and hasattr(obj, 'year') and hasattr(obj, 'month'):
+        return '%04d-%02d' % (obj.year, obj.month)
+    elif isinstance(obj, (dict, list, tuple)):
+        return json.dumps(strize(list(obj) if isinstance(obj, tuple) else obj))
+    return str(obj)
+
+
+# Types without a column type of their own are kept as their text
+TEXT_TYPES = ['duration', 'yearmonth', 'geopoint', 'geojson']
 
 
 class SQLDumper(DumperBase):
@@ -102,6 +117,8 @@ class SQLDumper(DumperBase):
             if field['type'] in ['array', 'object']:
                 assert dialect in OBJECT_FIXERS, "Don't know how to handle %r connection dialect" % dialect
                 actions.setdefault(field['name'], []).extend(OBJECT_FIXERS[dialect])
+            elif field['type'] in TEXT_TYPES:
+                actions.setdefault(field['name'], []).append(textize)
 
         for row in resource:
             # The DB gets a converted copy; the row itself continues downstream as it came
@@ -192,6 +209,9 @@ class SQLDumper(DumperBase):
         for field in schema['fields']:
             if dialect == 'sqlite' and field['type'] in ['object', 'array']:
                 field['type'] = 'string'
+            elif field['type'] in TEXT_TYPES:
+                field['type'] = 'string'
+                field.pop('format', None)
             # The rows have been validated already. Only the constraints that translate into
             # well-formed DDL go to the database (enum / minimum / maximum ... become broken CHECK
             # clauses, length constraints of an array would apply to its JSON text)
